@@ -248,6 +248,19 @@ func c31Masks() []byte {
 	return append(m, 32, 33, 255)
 }
 
+// c31InTier: thorough = full product Max x mask.  quick = (every Max x masks {1,2,19,31,32}) united
+// with (Max {1,2,3} x every mask): the quick tier factorises the product, the thorough tier does not.
+func c31InTier(maxName string, mask byte) bool {
+	if verifmc.Thorough() {
+		return true
+	}
+	switch mask {
+	case 1, 2, 19, 31, 32:
+		return true
+	}
+	return maxName == "1" || maxName == "2" || maxName == "3"
+}
+
 func c31DirName(d messages.SyncDirection) string {
 	switch d {
 	case messages.Ascending:
@@ -425,13 +438,23 @@ func c31ErrClass(err error) string {
 }
 
 func c31Scenarios() []c31Scenario {
+	// key lengths get every fork/finalisation variant; in the thorough tier every other length
+	// 0..260 gets the no-fork chain and a mid fork that is the best chain, each with F in {0, L/3}
+	key := []int{0, 1, 2, 3, 5, 127, 128, 129, 130, 131, 257, 258, 260}
+	if verifmc.Thorough() {
+		key = append(key, 4, 6, 7, 8, 126, 132, 255, 256, 259)
+	}
+	isKey := map[int]bool{}
+	for _, l := range key {
+		isKey[l] = true
+	}
 	var ls []int
 	if verifmc.Thorough() {
 		for l := 0; l <= 260; l++ {
 			ls = append(ls, l)
 		}
 	} else {
-		ls = []int{0, 1, 2, 3, 5, 127, 128, 129, 130, 131, 257, 258, 260}
+		ls = key
 	}
 	var out []c31Scenario
 	seen := map[c31Scenario]bool{}
@@ -451,20 +474,78 @@ func c31Scenarios() []c31Scenario {
 			if l == 0 {
 				continue
 			}
+			if !isKey[l] {
+				add(c31Scenario{L: l, f: l / 2, k: l - l/2 + 1, F: fin})
+				continue
+			}
 			for _, f := range []int{0, l / 2, l - 1} {
 				for _, k := range []int{1, l - f + 1} {
 					add(c31Scenario{L: l, f: f, k: k, F: fin})
 				}
 			}
 		}
-		if l >= 1 {
+		if l >= 1 && isKey[l] {
 			add(c31Scenario{L: l, f: -1, F: l}) // everything finalised
 		}
 	}
-	// the fork is the best chain AND longer than one response: fork of 130/260 on a short main chain
+	// the fork is the best chain AND longer than one response
 	add(c31Scenario{L: 3, f: 1, k: 130, F: 0})
 	add(c31Scenario{L: 130, f: 1, k: 131, F: 0})
 	return out
+}
+
+// c31Vio collects violations deterministically: per signature the total count and the three
+// smallest witnesses in enumeration order (the run is parallel, the report must not depend on timing).
+type c31VioEntry struct {
+	key    [4]int
+	desc   string
+	replay any
+}
+
+type c31Vio struct {
+	mu    gosync.Mutex
+	count map[string]int64
+	best  map[string][]c31VioEntry
+}
+
+func c31KeyLess(a, b [4]int) bool {
+	for i := range a {
+		if a[i] != b[i] {
+			return a[i] < b[i]
+		}
+	}
+	return false
+}
+
+func (v *c31Vio) add(sig string, key [4]int, desc string, replay any) {
+	v.mu.Lock()
+	defer v.mu.Unlock()
+	if v.count == nil {
+		v.count, v.best = map[string]int64{}, map[string][]c31VioEntry{}
+	}
+	v.count[sig]++
+	l := append(v.best[sig], c31VioEntry{key, desc, replay})
+	sort.Slice(l, func(i, j int) bool { return c31KeyLess(l[i].key, l[j].key) })
+	if len(l) > 3 {
+		l = l[:3]
+	}
+	v.best[sig] = l
+}
+
+func (v *c31Vio) flush(r *verifmc.Report) {
+	var sigs []string
+	for s := range v.count {
+		sigs = append(sigs, s)
+	}
+	sort.Strings(sigs)
+	for _, s := range sigs {
+		for _, e := range v.best[s] {
+			r.Violate(s, e.desc, e.replay)
+		}
+		for j := int64(len(v.best[s])); j < v.count[s]; j++ {
+			r.Violate(s, "", nil) // counted only (the report keeps three witnesses per signature)
+		}
+	}
 }
 
 func TestVerif_C31_serve(t *testing.T) {
@@ -474,11 +555,12 @@ func TestVerif_C31_serve(t *testing.T) {
 	scs := c31Scenarios()
 	masks := c31Masks()
 	dirs := []messages.SyncDirection{messages.Ascending, messages.Descending, messages.SyncDirection(2)}
-	r.Rule = fmt.Sprintf("%d scenarios (main length x {no fork, fork at 0/L/2/L-1 of length 1 or tail+1} x finalised {0, L/3, L}) on a real state.BlockState; "+
+	r.Rule = fmt.Sprintf("%d scenarios (main length L x {no fork, fork at 0/L/2/L-1 of length 1 or tail+1} x finalised {0, L/3, L} for key lengths 0,1,2,3,5,127..131,257,258,260 [thorough: +4,6,7,8,126,132,255,256,259 and every other L in 0..260 with {no fork, best fork at L/2} x F {0,L/3}]) on a real state.BlockState; "+
 		"per scenario every start (by number 0,1,2,3,126..131,best-129..best+2,L/2,L,F,F+1,2^32-1; by hash genesis/main/fork/unknown) x direction {asc,desc,2} x "+
-		"Max {nil,0,1,2,3,127,128,129,2^32-1} x mask {0..31,32,33,255} through CreateBlockResponse; non-trivial = a non-empty response; "+
+		"Max {nil,0,1,2,3,127,128,129,2^32-1} x mask {0..31,32,33,255} [quick: (every Max x masks 1,2,19,31,32) + (Max 1,2,3 x every mask); thorough: full product] through CreateBlockResponse; non-trivial = a non-empty response; "+
 		"oracle = generated tree (start, links, length, fields)", len(scs))
 	const shards = 8
+	vio := &c31Vio{}
 	var aggMu gosync.Mutex
 	agg := map[string]int64{}
 	verifmc.ParallelFor(r, len(scs)*shards, func(item int) {
@@ -486,7 +568,7 @@ func TestVerif_C31_serve(t *testing.T) {
 		w, err := c31Build(sc)
 		if err != nil {
 			// building the scenario uses only valid operations of the real BlockState
-			r.Violate("serve:scenario-build-failed", sc.String()+": "+err.Error(), sc.String())
+			vio.add("serve:scenario-build-failed", [4]int{item / shards, 0, 0, 0}, sc.String()+": "+err.Error(), sc.String())
 			return
 		}
 		defer w.close()
@@ -516,6 +598,9 @@ func TestVerif_C31_serve(t *testing.T) {
 					svc := NewSyncService(WithBlockState(w.bs))
 					who := peer.ID(fmt.Sprintf("c31peer%d", mi))
 					for _, mask := range masks {
+						if !c31InTier(mx.name, mask) {
+							continue
+						}
 						var from messages.FromBlock
 						if st.byHash {
 							from = *messages.NewFromBlock(st.hash)
@@ -535,33 +620,34 @@ func TestVerif_C31_serve(t *testing.T) {
 						var rerr error
 						panicked, msg := verifmc.Guard(func() { resp, rerr = svc.CreateBlockResponse(who, req) })
 						cnt["evaluations"]++
+						vkey := [4]int{item / shards, si, int(dir)*16 + mi, int(mask)}
 						if panicked {
-							r.Violate("serve:panic:"+verifmc.PanicSite(msg), msg, replay())
+							vio.add("serve:panic:"+verifmc.PanicSite(msg), vkey, msg, replay())
 							outc["violation:panic"]++
 							continue
 						}
 						if rerr != nil {
 							outc[c31ErrClass(rerr)]++
 							if resp != nil {
-								r.Violate("serve:error-with-response", rerr.Error(), replay())
+								vio.add("serve:error-with-response", vkey, rerr.Error(), replay())
 							}
 							continue
 						}
 						if resp == nil {
-							r.Violate("serve:nil-response-without-error", "nil response, nil error", replay())
+							vio.add("serve:nil-response-without-error", vkey, "nil response, nil error", replay())
 							continue
 						}
 						if dir > messages.Descending {
-							r.Violate("serve:invalid-direction-served", fmt.Sprintf("direction %d answered with %d blocks", dir, len(resp.BlockData)), replay())
+							vio.add("serve:invalid-direction-served", vkey, fmt.Sprintf("direction %d answered with %d blocks", dir, len(resp.BlockData)), replay())
 							continue
 						}
 						if mask == 0 {
-							r.Violate("serve:empty-mask-served", fmt.Sprintf("mask 0 answered with %d blocks", len(resp.BlockData)), replay())
+							vio.add("serve:empty-mask-served", vkey, fmt.Sprintf("mask 0 answered with %d blocks", len(resp.BlockData)), replay())
 							continue
 						}
 						sig, desc, class := w.checkResponse(st, dir, mx.v, mask, resp.BlockData)
 						if sig != "" {
-							r.Violate(sig, sc.String()+" start="+st.name+" dir="+c31DirName(dir)+" max="+mx.name+fmt.Sprintf(" mask=%d: ", mask)+desc, replay())
+							vio.add(sig, vkey, sc.String()+" start="+st.name+" dir="+c31DirName(dir)+" max="+mx.name+fmt.Sprintf(" mask=%d: ", mask)+desc, replay())
 							outc["violation:"+sig]++
 							continue
 						}
@@ -581,8 +667,9 @@ func TestVerif_C31_serve(t *testing.T) {
 			}
 		}
 	}, func(i int, msg string) {
-		r.Violate("serve:harness-panic", msg, scs[i/shards].String())
+		vio.add("serve:harness-panic", [4]int{i / shards, 0, 0, 0}, msg, scs[i/shards].String())
 	})
+	vio.flush(r)
 	for k, v := range agg { // the engine has no bulk Outcome; uncontended calls are cheap
 		for j := int64(0); j < v; j++ {
 			r.Outcome(k)
